@@ -627,7 +627,8 @@ pub fn deep_plan(rng: &mut Prng, pool: &KeyPool<V512>) -> (WorldPlan, Vec<usize>
             switch_exp: Some(k),
             boundary: rng.below(257) as u32,
             threads,
-            align: None,
+            // a third of the deep runs with aligned starts (operations beginning side by side)
+            align: if rng.chance(1, 3) { Some((*rng.pick(&[16u32, 64, 256]), *rng.pick(&[1u32, 2, 3]))) } else { None },
         },
         used,
     )
